@@ -14,16 +14,16 @@ type simUser struct {
 }
 
 type simNet struct {
-	r        *RNG
-	me       string
-	users    map[string]*simUser // folded nick -> user (everyone on the network, incl. me)
-	joined   map[string]string   // folded chan -> spelling, channels I am in
-	modes    map[string]map[byte]string
-	prefixes string // "(qaohv)~&@%+" or "(ov)@+"
+	r         *RNG
+	me        string
+	users     map[string]*simUser // folded nick -> user (everyone on the network, incl. me)
+	joined    map[string]string   // folded chan -> spelling, channels I am in
+	modes     map[string]map[byte]string
+	prefixes  string // "(qaohv)~&@%+" or "(ov)@+"
 	chanmodes string // CHANMODES announced in 005
-	extJoin  bool
-	uhNames  bool
-	out      []string
+	extJoin   bool
+	uhNames   bool
+	out       []string
 }
 
 func variant(r *RNG, s string) string {
